@@ -6,6 +6,14 @@
 (*              here, because the same call sequence up to this call is another trace's last call),    *)
 (*              the events drained after it                                                             *)
 (*   last line  [op |-> "connect_other", hasid, exc, conn]  reconnecting under another identity        *)
+(* An IDENTITY trace is what one real provider did for one sequence of logins (ProviderIdentity.tla):  *)
+(*   line 1     [op |-> "idinit", conn, cid]                a provider that was never connected          *)
+(*   call lines [op |-> "connect" | "disconnect" | "reconnect" | "setcreds" | "bindforeign", j, exc,     *)
+(*               conn, cid]   the call (j: identity of the credentials passed / 0), its outcome (0 or    *)
+(*              the exception class), `connected` and connection_id (as an identity code, 0 = None)     *)
+(*              after it.  setcreds (set_creds) and bindforeign (the harness stores the connection_id   *)
+(*              of identity j, as the repository's tests do with "invalid") set up the initial states   *)
+(*              of the design; they are not judged.                                                      *)
 (* The calls are replayed on ProviderModel and every clause of the property is evaluated on the CODE's *)
 (* answers.  Total: a failing clause is recorded (register 1) and the trace goes on with the           *)
 (* specification's effect; once the code's TREE has been seen to differ from the model (ErrorClass,    *)
@@ -18,9 +26,9 @@
 (*        hd |-> hash_data(bytes of content c) for every c of AllContents]                               *)
 (*                                                                 (hashes are small integers, 0 = none) *)
 (* exception classes: 0 none, 1 exists, 2 not found, 4 name error, 5 token error, 9 anything else.      *)
-EXTENDS ProviderModel, Json, IOUtils
+EXTENDS ProviderModel, ProviderIdentity, Json, IOUtils
 VARIABLES tid, l, ok, hs
-tvars == <<fs, nextOid, feed, tid, l, ok, hs>>
+tvars == <<fs, nextOid, feed, idn, tid, l, ok, hs>>
 
 Traces == JsonDeserialize(IOEnv.TRACE_FILE)
 Tr     == Traces[tid]
@@ -33,6 +41,7 @@ Range(s)  == {s[k] : k \in 1..Len(s)}
 B(c)      == IF c THEN 1 ELSE 0
 NormOid(x) == IF OidIsPath THEN Norm(x) ELSE x
 ExcOf(e)  == IF e = NOTEMPTY THEN 1 ELSE e
+TOKENERR  == 5
 
 \* ---- one pass over the observation ------------------------------------------------------------------
 \* Every answer of the provider is compared with the tree once.  The result is a set of small tuples:
@@ -120,6 +129,7 @@ TraceInit ==
   /\ ok = TRUE
   /\ hs = {}
   /\ PInit
+  /\ idn = Fresh
 
 Advance == /\ l' = l + 1
            /\ IF l = Len(Tr) THEN TLCSet(2, TLCGet(2) + 1) ELSE TRUE
@@ -131,7 +141,7 @@ TInit ==
        /\ CheckQueries(ev)
        /\ HdInjective(Ev.obs.hd)
        /\ ok' = QueriesOK(ev)
-  /\ UNCHANGED <<fs, nextOid, feed, hs>>
+  /\ UNCHANGED <<fs, nextOid, feed, hs, idn>>
   /\ Advance
 
 ModelOf(e) ==
@@ -143,7 +153,7 @@ ModelOf(e) ==
 
 TCall ==
   /\ Ev.op \in {"create", "mkdir", "upload", "rename", "delete"}
-  /\ IF ~ok THEN UNCHANGED <<fs, nextOid, feed, ok, hs>>
+  /\ IF ~ok THEN UNCHANGED <<fs, nextOid, feed, ok, hs, idn>>
      ELSE
      LET r     == ModelOf(Ev)
          cErr  == IF r.errs = {} THEN Ev.exc = 0
@@ -157,6 +167,7 @@ TCall ==
          hd    == IF Ev.ob = 1 THEN Ev.obs.hd ELSE Tr[1].obs.hd
          same  == cErr /\ cRid /\ QueriesOK(ev)          \* the provider's tree still is the model's tree
      IN
+       /\ UNCHANGED idn
        /\ Check(cErr, "ErrorClass/" \o ToString(r.errs) \o "/" \o ToString(Ev.exc))
        /\ Check(cRid, ridClause)
        /\ IF cErr /\ cRid THEN CheckQueries(ev) ELSE TRUE    \* else: the call took effect on one side only
@@ -171,11 +182,44 @@ TCall ==
 
 TConnect ==
   /\ Ev.op = "connect_other"
-  /\ Check(Ev.hasid = 0 \/ (Ev.exc = 5 /\ Ev.conn = 0), "IdentityRefused")
+  /\ Check(Ev.hasid = 0 \/ (Ev.exc = TOKENERR /\ Ev.conn = 0), "IdentityRefused")
+  /\ UNCHANGED <<fs, nextOid, feed, ok, hs, idn>>
+  /\ Advance
+
+\* ---- identity traces: the logins are replayed on ProviderIdentity ---------------------------------------
+\* Every clause is stated against the MODEL's binding (the identity of the first successful login), so a
+\* provider whose binding has moved keeps failing: the foreign identity accepted on a second attempt is an
+\* IdentityRefused failure of its own, the owner refused afterwards an OwnerAccepted failure.
+TIdent ==
+  /\ Ev.op \in {"idinit", "connect", "disconnect", "reconnect", "setcreds", "bindforeign"}
+  /\ LET s     == idn
+         login == Ev.op = "connect" \/ (Ev.op = "reconnect" /\ ~s.conn)
+         j     == IF Ev.op = "connect" THEN Ev.j ELSE s.creds
+         r     == IF Ev.op = "connect" THEN IConnect(s, Ev.j)
+                  ELSE IF Ev.op = "reconnect" THEN IReconnect(s) ELSE IDisconnect(s)
+     IN
+     IF Ev.op = "idinit" THEN idn' = Fresh
+     ELSE IF Ev.op = "setcreds" THEN idn' = [s EXCEPT !.creds = Ev.j]
+     ELSE IF Ev.op = "bindforeign" THEN idn' = [s EXCEPT !.bound = Ev.j]
+     ELSE IF login /\ ~r.ok THEN
+       \* refused: with the token error, not connected as anybody else, the binding what it was.  A provider
+       \* that was connected as its owner may keep or drop that session (the trace follows the code)
+       /\ Check(Ev.exc = TOKENERR /\ (Ev.conn = 0 \/ s.conn), "IdentityRefused")
+       /\ Check(Ev.cid = s.bound, "BindingUnchangedByRefusal")
+       /\ idn' = [r.st EXCEPT !.conn = (s.conn /\ Ev.conn = 1)]
+     ELSE IF login THEN
+       /\ Check(Ev.exc = 0 /\ Ev.conn = 1 /\ Ev.cid = j, IF s.bound = NOID THEN "LoginBinds" ELSE "OwnerAccepted")
+       /\ idn' = r.st
+     ELSE IF Ev.op = "reconnect" THEN
+       /\ Check(Ev.exc = 0 /\ Ev.conn = 1 /\ Ev.cid = s.bound, "ReconnectKeepsBinding")
+       /\ idn' = r.st
+     ELSE
+       /\ Check(Ev.exc = 0 /\ Ev.conn = 0 /\ Ev.cid = s.bound, "DisconnectKeepsBinding")
+       /\ idn' = r.st
   /\ UNCHANGED <<fs, nextOid, feed, ok, hs>>
   /\ Advance
 
-TraceNext == l <= Len(Tr) /\ (TInit \/ TCall \/ TConnect)
+TraceNext == l <= Len(Tr) /\ (TInit \/ TCall \/ TConnect \/ TIdent)
 TraceSpec == TraceInit /\ [][TraceNext]_tvars
 
 ASSUME TLCSet(1, {}) /\ TLCSet(2, 0)
